@@ -546,6 +546,8 @@ class Session:
       cls = 'ImportError'
     if isinstance(e, OSError):
       cls = 'OSError'
+    if getattr(type(e), '_ginverif_base', None):
+      cls = type(e)._ginverif_base   # pylint: disable=protected-access
     chain = []
     tmp = (getattr(self, '_tmp', None) or '\0') + os.sep
     for m in re.finditer(r'In (?:file "([^"]*)",|bindings string) line (\d+)', str(e)):
@@ -780,7 +782,10 @@ class Session:
           # the same spelling through get_configurable must be judged the same way (raises here if not)
           self.gin.get_configurable('/'.join(list(op['scope']) + [op['q']]))
       elif name == 'operative':
-        r = self.store_json(self.cfg._OPERATIVE_CONFIG)  # pylint: disable=protected-access
+        # a constant lookup (`%pkg.NAME`) is a call of gin.constant under the constant's name: it leaves an empty
+        # record that no text shows and that the mirror does not keep
+        r = [row for row in self.store_json(self.cfg._OPERATIVE_CONFIG)  # pylint: disable=protected-access
+             if not (row[0].endswith('|gin.constant') and not row[1])]
       elif name == 'config':
         r = self.store_json(self.cfg._CONFIG)  # pylint: disable=protected-access
       elif name == 'prov':
